@@ -74,7 +74,7 @@ Definition refutes (c : call) : bool :=
 Definition P0 := PT TEql 0.
 Definition mk (f : fname) (item new : Z) (p : predfn) (s1 s2 : seqin) (st en : option nat) (k : option keyfn)
   (t : testarg) (cn : countarg) (fe : bool) : call :=
-  mkCall f item new p s1 s2 st en false None None k t cn fe BAdd None 1 false.
+  mkCall f item new p s1 s2 st en false None None k t cn fe BAdd None 1 false TrT.
 
 (* (find 1 '(0 1 2) :test-not 'eql) => type-error, the language says 0 *)
 Definition w_test_not := mk FFind 1 0 P0 (SList [0;1;2]) SNil None None None (TTestNot TEql) CAbsent false.
@@ -95,17 +95,17 @@ Definition w_assoc_nil := mk FAssoc 1 0 P0 SNil SNil None None None TDefault CAb
 Definition w_assoc_order := mk FAssoc 1 0 P0 (SList [2]) (SList [0]) None None None (TTest TLt) CAbsent false.
 (* (search '(1 2) '(1 2 3) :from-end t) => nil; (search '() '(1 2 3) :start2 1) => 0 *)
 Definition w_search_from_end :=
-  mkCall FSearch 0 0 P0 (SList [1;2]) (SList [1;2;3]) None None false None None None TDefault CAbsent true BAdd None 1 false.
+  mkCall FSearch 0 0 P0 (SList [1;2]) (SList [1;2;3]) None None false None None None TDefault CAbsent true BAdd None 1 false TrNum.
 Definition w_search_empty :=
-  mkCall FSearch 0 0 P0 (SList []) (SList [1;2;3]) None None false (Some 1%nat) None None TDefault CAbsent false BAdd None 1 false.
+  mkCall FSearch 0 0 P0 (SList []) (SList [1;2;3]) None None false (Some 1%nat) None None TDefault CAbsent false BAdd None 1 false TrNum.
 (* (mismatch '(1 2 3 4) '(1 2 9 4) :from-end t) => 2; (mismatch '(1 2) '(1 2) :start1 2) => error *)
 Definition w_mismatch_from_end :=
-  mkCall FMismatch 0 0 P0 (SList [1;2;3;4]) (SList [1;2;9;4]) None None false None None None TDefault CAbsent true BAdd None 1 false.
+  mkCall FMismatch 0 0 P0 (SList [1;2;3;4]) (SList [1;2;9;4]) None None false None None None TDefault CAbsent true BAdd None 1 false TrNum.
 Definition w_mismatch_start :=
-  mkCall FMismatch 0 0 P0 (SList [1;2]) (SList [1;2]) (Some 2%nat) None false None None None TDefault CAbsent false BAdd None 1 false.
+  mkCall FMismatch 0 0 P0 (SList [1;2]) (SList [1;2]) (Some 2%nat) None false None None None TDefault CAbsent false BAdd None 1 false TrNum.
 (* (replace (list 1 2 3) '(9 9) :end1 3) => error; (fill (list 1 2 3) 0 :end 3) => error *)
 Definition w_replace_end :=
-  mkCall FReplace 0 0 P0 (SList [1;2;3]) (SList [9;9]) None (Some 3%nat) false None None None TDefault CAbsent false BAdd None 1 false.
+  mkCall FReplace 0 0 P0 (SList [1;2;3]) (SList [9;9]) None (Some 3%nat) false None None None TDefault CAbsent false BAdd None 1 false TrNum.
 Definition w_fill_end := mk FFill 0 0 P0 (SList [1;2;3]) SNil None (Some 3%nat) None TDefault CAbsent false.
 (* (subseq nil 0), (every (lambda (x) (eql 0 x)) nil), (subsetp nil '(1)): type-error *)
 Definition w_subseq_nil := mk FSubseq 0 0 P0 SNil SNil (Some 0%nat) None None TDefault CAbsent false.
@@ -119,7 +119,7 @@ Definition w_merge_nil := mk FMerge 0 0 P0 SNil (SList [1]) None None None (TTes
 Definition w_merge_tie := mk FMerge 0 0 P0 (SList [-1]) (SList [1]) None None (Some KAbs) (TTest TLt) CAbsent false.
 (* (some (lambda (x) (if (< 1 x) x nil)) '(1 2 3)) => t *)
 Definition w_some_value :=
-  mkCall FSome 0 0 (PT TLt 1) (SList [1;2;3]) SNil None None false None None None TDefault CAbsent false BAdd None 1 true.
+  mkCall FSome 0 0 (PT TLt 1) (SList [1;2;3]) SNil None None false None None None TDefault CAbsent false BAdd None 1 true TrNum.
 (* (reduce '+ '()) => nil; (reduce '+ '(1 2 3) :start 3) => type-error *)
 Definition w_reduce_empty := mk FReduce 0 0 P0 (SList []) SNil None None None TDefault CAbsent false.
 Definition w_reduce_start := mk FReduce 0 0 P0 (SList [1;2;3]) SNil (Some 3%nat) None None TDefault CAbsent false.
@@ -156,9 +156,9 @@ Definition ex_calls : list call :=
     mk FSubstituteIf 0 7 (PT TLt 0) (SStr [0;1;-1;2]) SNil (Some 1%nat) None (Some KNeg) TDefault CAbsent false;
     mk FRemoveDuplicates 0 0 P0 (SVec [1;-1;2;1;-2]) SNil None None (Some KAbs) (TTest TEq) CAbsent false;
     mk FRemoveDuplicates 0 0 P0 (SList [1;2;3;2]) SNil None None None (TTest TLt) CAbsent false;
-    mkCall FSearch 0 0 P0 (SList [9;1;2]) (SList [1;2;0;1;2;5]) (Some 1%nat) None false (Some 1%nat) None None TDefault CAbsent true BAdd None 1 false;
-    mkCall FMismatch 0 0 P0 (SStr [1;2;3]) (SStr [0;1;2;4]) None None false (Some 1%nat) None None (TTest TEq) CAbsent false BAdd None 1 false;
-    mkCall FReduce 0 0 P0 (SVec [1;2;3;4]) SNil (Some 1%nat) None false None None (Some KSucc) TDefault CAbsent true BSub (Some 10) 1 false;
+    mkCall FSearch 0 0 P0 (SList [9;1;2]) (SList [1;2;0;1;2;5]) (Some 1%nat) None false (Some 1%nat) None None TDefault CAbsent true BAdd None 1 false TrNum;
+    mkCall FMismatch 0 0 P0 (SStr [1;2;3]) (SStr [0;1;2;4]) None None false (Some 1%nat) None None (TTest TEq) CAbsent false BAdd None 1 false TrNum;
+    mkCall FReduce 0 0 P0 (SVec [1;2;3;4]) SNil (Some 1%nat) None false None None (Some KSucc) TDefault CAbsent true BSub (Some 10) 1 false TrNum;
     mk FMerge 0 0 P0 (SList [3;1]) (SList [4;2;0]) None None None (TTest TGt) CAbsent false;
     mk FUnion 0 0 P0 (SList [1;-1;2]) (SList [-2;3]) None None (Some KAbs) TDefault CAbsent false;
     mk FAssoc 2 0 P0 (SList [1;2;3]) (SList [7;8;9]) None None (Some KSucc) (TTest TEq) CAbsent false ].
@@ -190,7 +190,7 @@ Lemma s_call_form : forall f g c, s_call (with_form f c) = s_call (with_form g c
 Proof.
   intros f g c. unfold s_call, s_assoc, s_search, s_mismatch, s_replace, s_reduce, s_quant_vals, s_map_vals, s_mt,
     s_match, s_start, s_end, s_start2, s_end2, with_form.
-  cbn [c_fn c_item c_new c_pred c_seq c_seq2 c_start c_end c_end_nil c_start2 c_end2 c_key c_test c_count c_from_end c_op c_init c_nseq c_flag].
+  cbn [c_fn c_item c_new c_pred c_seq c_seq2 c_start c_end c_end_nil c_start2 c_end2 c_key c_test c_count c_from_end c_op c_init c_nseq c_flag c_truth].
   rewrite !elems_in_form. reflexivity.
 Qed.
 
@@ -270,3 +270,15 @@ Lemma guard_nonvacuous : forallb in_domain ex_calls = true /\
     Some (RSeq [3;2]); Some (RInt 3); Some (RInt 2); Some (RElt (-6)); Some (RSeq [4;3;2;1;0]); Some (RSeq [1;2;3]);
     Some (RSeq [1;7]) ].
 Proof. split; [exact examples_in_domain|exact examples_values]. Qed.
+
+(* ---- generalized booleans -------------------------------------------------------------------------------- *)
+(* whatever object the called function uses for "true", the Go reading (!= nil) and the language's
+   reading (not nil) are the boolean the model and the specification compute with *)
+Lemma answer_decided : forall s b, go_decides (answer s b) = b /\ truthy (answer s b) = b.
+Proof. intros s [|]; destruct s; split; reflexivity. Qed.
+Lemma test_answer_decided : forall s t a b p x,
+  go_decides (answer s (test_app t a b)) = test_app t a b /\ truthy (answer s (pred_app p x)) = pred_app p x.
+Proof. intros. split; apply answer_decided. Qed.
+(* a comparison with the symbol t is a different function as soon as the answer is not t *)
+Lemma is_t_differs : forall s, s <> TrT -> is_t_g (answer s true) = false /\ not_nil_g (answer s true) = true.
+Proof. intros s H. destruct s; try contradiction; split; reflexivity. Qed.
